@@ -13,3 +13,8 @@ def run(tier, seed):
     from checks import c06_readers
     c06_readers.run(res, tier, seed)
     return res.finish()
+
+
+def replay(path):
+    from checks.containers import replay_container
+    return replay_container("C06", path)
